@@ -284,128 +284,26 @@ def run_sequence(ops):
         tr.append((r, ex.observe()))
     return tr, ex
 
-# ----------------------------------------------------------------------------- finding predicates
-# Each predicate is computed from the failing step alone: the operation, its result and the
-# observation of the live objects just before it (all three passed through tolist()).
-
-def _graph_obs(pre, h):
-    if h < len(pre) and pre[h][0] == "ObsG": return pre[h][1]
-    return None
-
-def _arg_nodes(op, pre):
-    """the node values an AddEdge/NewEdge/SetExt call passes (fresh ones get ids that cannot clash)"""
-    nas = op[1][2] if op[0] in ("AddEdge", "NewEdge") else op[1][1]
-    out = []
-    for a in nas:
-        out.append(a[1] if a[0] == "NVal" else tolist(node(a[1], IM(-1 - len(out)))))
-    return out
-
-def p_f11_node_id_reuse(op, res, pre):
-    """add_edge / new_edge / ext= with an argument node whose id is already present (in the graph
-    or earlier in the same argument list) with a different label"""
-    if op[0] not in ("AddEdge", "NewEdge", "SetExt"): return False
-    g = _graph_obs(pre, op[1][0])
-    if g is None: return False
-    present = {repr(n_id(n)): n for n in g[0][1]}
-    for n in _arg_nodes(op, pre):
-        k = repr(n_id(n))
-        if k in present:
-            if present[k] != n: return True
-        else:
-            present[k] = n
-    return False
-
-def _rebuilt_views(gobs):
-    """label views a FactorGraph.copy rebuilds from nodes and edges"""
-    nls, els = [], []
-    for n in gobs[0][1]:
-        if n_label(n) not in nls: nls.append(n_label(n))
-    for e in gobs[0][2]:
-        if e_label(e) not in els: els.append(e_label(e))
-    return nls, els
-
-def p_f13_copy_label_tables(op, res, pre):
-    """copy() of a Graph with a non-empty label table (directly or as the rhs of a rule of the
-    copied grammar), or of a FactorGraph whose label tables are not exactly what its nodes and
-    edges rebuild"""
-    if op[0] != "Copy" or op[1] >= len(pre): return False
-    o = pre[op[1]]
-    hs = [op[1]] if o[0] == "ObsG" else [r[1][1] for r in o[1][0][1]]
-    for h in hs:
-        g = _graph_obs(pre, h)
-        if g is None: continue
-        nls, els = g[1][0], g[1][1]
-        if g[0][0] == 0:
-            if nls or els: return True
-        else:
-            if (nls, els) != _rebuilt_views(g): return True
-    return False
+# ----------------------------------------------------------------------------- finding predicate
+# The one remaining known class.  The predicate is computed from the failing step alone: the
+# operation, its result and the observation of the live objects just before it (all passed
+# through tolist()).  Everything else the oracles reject is a VIOLATION.
 
 def p_rule_rhs_alias_mutation(op, res, pre):
     """add_edge / new_edge / ext= on a graph object that some live grammar uses as a rule's rhs"""
-    if op[0] not in ("AddEdge", "NewEdge", "SetExt"): return False
+    if op[0] not in ("AddEdge", "NewEdge", "SetExt") or res != ["ROk"]: return False
     h = op[1][0]
     return any(o[0] == "ObsH" and any(r[1][1] == h for r in o[1][0][1]) for o in pre)
 
-def p_f12_add_edge_partial(op, res, pre):
-    """add_edge / new_edge raising ValueError for a label clash after adding a missing attachment node"""
-    if op[0] not in ("AddEdge", "NewEdge") or res != ["RErr", "ValueErr"]: return False
-    g = _graph_obs(pre, op[1][0])
-    if g is None: return False
-    ns = _arg_nodes(op, pre)
-    if op[0] == "AddEdge": lab = op[1][1]
-    else: lab = tolist(elabel(op[1][1], [n_label(n) for n in ns], op[1][3]))
-    clash = any(el_name(l) == el_name(lab) and l != lab for l in g[1][1])
-    present = {repr(n_id(n)) for n in g[0][1]}
-    return clash and any(repr(n_id(n)) not in present for n in ns)
-
-def p_add_rule_partial(op, res, pre):
-    """add_rule / new_rule raising ValueError (label clash) after registering earlier labels"""
-    return op[0] in ("AddRule", "NewRule") and res == ["RErr", "ValueErr"]
-
-def p_interp_register_partial(op, res, pre):
-    """add_factor raising after registering a new edge label, or add_domain / new_finite_domain
-    raising after registering a node label that the table lacked"""
-    if res != ["RErr", "ValueErr"]: return False
-    h = op[1][0] if len(op) > 1 and isinstance(op[1], (list, tuple)) else None
-    if h is None or h >= len(pre): return False
-    views = pre[h][1][1]
-    if op[0] == "AddFactor":
-        return all(el_name(l) != el_name(op[1][1]) for l in views[1])
-    if op[0] in ("AddDomain", "NewFiniteDomain"):
-        return op[1][1] not in views[0]
-    return False
-
-def p_remove_node_id_alias(op, res, pre):
-    """remove_node(n) where the graph holds a DIFFERENT node with n's id (other label) that is
-    attached to an edge or external: that node is removed"""
-    if op[0] != "RemoveNode" or res != ["ROk"]: return False
-    g = _graph_obs(pre, op[1][0])
-    if g is None: return False
-    n = op[1][1]
-    for m in g[0][1]:
-        if n_id(m) == n_id(n) and m != n:
-            return any(m in e_nodes(e) for e in g[0][2]) or m in g[0][3]
-    return False
-
 # code -> (finding key, python predicate)
 KNOWN = {
-    13: ("c16_remove_node_id_alias", p_remove_node_id_alias),
-    2: ("c16_f11_node_id_reuse", p_f11_node_id_reuse),
-    3: ("c16_f13_copy_label_tables", p_f13_copy_label_tables),
-    12: ("c16_f13_copy_label_tables", p_f13_copy_label_tables),
     4: ("c16_rule_rhs_alias_mutation", p_rule_rhs_alias_mutation),
-    6: ("c16_f12_add_edge_partial", p_f12_add_edge_partial),
-    7: ("c16_add_rule_partial", p_add_rule_partial),
-    8: ("c16_interp_register_partial", p_interp_register_partial),
 }
 CODE_TEXT = {
     1: "after this call the object is not well formed (verified oracle wf_b rejects the implementation's state) although every call so far satisfies guard_wf",
-    2: "well-formedness lost", 3: "well-formedness lost", 4: "well-formedness lost",
-    5: "a call that raised changed what the object shows although atomic_ok holds (verified atomicity oracle)",
-    6: "raising call not atomic", 7: "raising call not atomic", 8: "raising call not atomic",
-    9: "an object other than the call's target changed, or a copy does not show what its original shows (frame / copy oracle)",
-    12: "copy differs from its original in the label-table views",
+    4: "well-formedness lost",
+    5: "a call that raised changed what the objects show (verified atomicity oracle, C16_failure_atomic)",
+    9: "an object other than the call's target changed, or a copy does not show what its original shows (frame / copy oracle, C16_frame / C16_copy_observe)",
     10: "result / exception kind differs from the model's",
     11: "observable state differs from the model's",
     15: "malformed case",
